@@ -167,6 +167,10 @@ func genScenario1(tp *tape.Tape, idx int, thorough bool) scenario {
 	if tp.Chance(1, 4, "render.subdir") {
 		out = "sub/dir/out.svg"
 	}
+	if out == "out.svg" && tp.Chance(1, 6, "render.ascii") { // (d2 does not create missing directories for .txt)
+		// the text renderer reaches the same writer by another path
+		out = strings.TrimSuffix(out, ".svg") + ".txt"
+	}
 	sc.Files = append(sc.Files, fileSpec{Name: "in.d2", Old: []byte(src), IsInput: true})
 	old := fileSpec{Name: out}
 	switch tp.Draw(4, "render.old") {
